@@ -50,7 +50,7 @@ def expect_upload(world, idx, sub):
     if o.kind == "usr":
         size, rderr, wrerr, ab = o.usr
         if size == 0 or rderr:
-            code = ab if (ab and rderr and size) else None
+            code = ab if (ab and rderr and 0 < size <= 4) else None       # only expedited transfers forward the application's code
             return ("abort", code)
         return ("any", None)
     return ("data", o.bytes())
@@ -109,6 +109,21 @@ def expect_init_size(world, idx, sub, size, blk):
     return ("ok", None)
 
 
+def wellformed(kind, r):
+    """Is r a response CiA 301 knows for an initiate request of this kind (abort or the positive answer)?"""
+    if r[0] == 0x80:
+        return True
+    if kind == "up":
+        return (r[0] & 0xE0) == 0x40 and not (r[0] & 0x10)
+    if kind in ("exp", "seginit"):
+        return r[0] == 0x60
+    if kind == "blkinit":
+        return (r[0] & 0xFB) == 0xA0
+    if kind == "blkup":
+        return (r[0] & 0xF9) == 0xC0 or ((r[0] & 0xE0) == 0x40 and not (r[0] & 0x10))
+    return True
+
+
 def c04_matrix(res, run, world, rng, n_extra):
     sim = run.sim
     keys = list(world.om.keys())
@@ -145,6 +160,9 @@ def c04_matrix(res, run, world, rng, n_extra):
             code = parse_abort(r)
             if code is not None and r[1:4] != m:
                 res.violation("c04/abort-mux/%s" % rq[0], "%s: abort names %s" % (what, r[1:4].hex()), sim=sim)
+                return False
+            if not wellformed(rq[0], r):
+                res.violation("c04/response/malformed/%s" % rq[0], "%s: answered with %s, which is neither an abort nor the positive answer to this request" % (what, r.hex()), sim=sim)
                 return False
             exp = None
             positive_open = False
@@ -207,6 +225,17 @@ def c04_matrix(res, run, world, rng, n_extra):
             if code is not None and after != before:
                 res.violation("c04/refusal-changed-storage/%s" % rq[0], "%s refused with %08x but storage changed" % (what, code), sim=sim)
                 return False
+            if rq[0] == "exp":
+                # an expedited request, confirmed or refused, leaves no transfer open: a download segment must be refused and change nothing
+                resp3 = run.step(0, bytes([rng.choice([0x00, 0x01, 0x10, 0x0D])]) + gen.rand_bytes(rng, 7))
+                res.evals += 1
+                if len(resp3) != 1 or parse_abort(resp3[0]) is None:
+                    res.violation("c04/verdict/segment-after-expedited", "%s, then a download segment: answered %s (reference: abort, no transfer is open)" % (
+                        what, [x.hex() for x in resp3[:2]]), sim=sim)
+                    return False
+                if sim.dump() != after:
+                    res.violation("c04/refusal-changed-storage/segment-after-expedited", "%s, then a refused download segment: storage changed" % what, sim=sim)
+                    return False
             bad = world.check_dump(sim)
             if bad and exp[0] != "any":
                 res.violation("c04/storage/%s" % rq[0], "%s: storage differs from model: %r" % (what, bad[:2]), sim=sim)
